@@ -455,4 +455,169 @@ Proof.
         destruct (smatch' d' (new_list (skipn (length es' - k) es'))); [|reflexivity].
         simpl flat. rewrite <- !app_assoc. reflexivity.
 Qed.
+
+Lemma car_depth_elem : forall a d n, (car_depth (CPair a d) <= n)%nat ->
+  (S (car_depth a) <= n)%nat /\ (car_depth d <= n)%nat.
+Proof. intros a d n H. cbn [car_depth] in H. lia. Qed.
+
+(* ---- the whole loop on a list pattern of the fragment *)
+Lemma loop_A : forall rec n, rec_ok rec n ->
+  forall p seen, pat_ok lits ell seen p = true -> (car_depth p <= n)%nat ->
+  forall es cur env, use_ok ell p es = true ->
+  pm_loop' rec es (elems p) cur false env = res env (smatch' p (new_list es)).
+Proof.
+  intros rec n Hrec.
+  induction p as [p IHp] using cell_size_ind. intros seen Hp Hn es cur env Hu.
+  destruct p as [| | | |a d| | | | | | | |]; try (simpl in Hp; discriminate).
+  - (* () *)
+    destruct es as [|e es'].
+    + cbn [pm_loop elems]. unfold pm_end, res. cbn. rewrite app_nil_r. reflexivity.
+    + reflexivity.
+  - destruct (car_depth_elem _ _ _ Hn) as [Hna Hnd].
+    destruct (starts_with_ell ell d) eqn:Es.
+    + (* a ... tail *)
+      destruct d as [| | | |e d'| | | | | | | |]; simpl in Es; try discriminate.
+      destruct (pat_ok_ell _ _ _ _ Es Hp) as (-> & Ha & Hd').
+      destruct (car_depth_elem _ _ _ Hnd) as [_ Hnd'].
+      destruct (var_facts _ Ha) as (Hsa & _ & Hnea & _).
+      pose proof (pat_ok_chain_len _ _ Hd') as Hk.
+      assert (HA : forall es cur env, use_ok ell d' es = true ->
+                pm_loop' rec es (elems d') cur false env = res env (smatch' d' (new_list es))).
+      { intros. eapply IHp; eauto. simpl. lia. }
+      cbn [use_ok] in Hu. rewrite Es in Hu. apply andb_prop in Hu. destruct Hu as [Hne Hu'].
+      rewrite Hk in Hne, Hu'.
+      rewrite smatch_ell by exact Es. cbv zeta. rewrite chain_len_new_list, Hk.
+      cbn [elems].
+      destruct es as [|e1 es'].
+      * (* no element left: zero items *)
+        cbn [pm_loop]. unfold pm_end. cbn [tl peek_is]. unfold s_is_ell in Es. rewrite Es.
+        destruct (elems d') as [|y r] eqn:Ed.
+        -- assert (d' = CNil) as ->.
+           { rewrite <- (new_list_elems d') by (eapply pat_ok_proper; eauto). rewrite Ed. reflexivity. }
+           simpl. rewrite pvars_var by assumption. unfold res. simpl. rewrite app_nil_r. reflexivity.
+        -- reflexivity.
+      * (* the first element always goes to the ellipsis variable *)
+        rewrite (loop_step rec e1 es' (a :: e :: elems d') cur false env a (e :: elems d')).
+        2:{ reflexivity. }
+        2:{ destruct a; simpl in Hsa; try discriminate.
+            change (negb (s_is_ell ell (CSym s)) = true). rewrite Hnea. reflexivity. }
+        2:{ destruct a; simpl in Hsa; try discriminate. }
+        rewrite smatch_var by assumption.
+        assert (peek_is ell (e :: elems d') = true) as -> by exact Es.
+        rewrite (loop_B rec a e d' Es Ha Hd' HA).
+        2:{ intros Hle. simpl length in Hu'.
+            replace (S (length es') - length (elems d'))%nat with (S (length es' - length (elems d'))) in Hu' by lia.
+            exact Hu'. }
+        simpl length. set (k := length (elems d')) in *.
+        destruct (Nat.ltb (length es') k) eqn:El.
+        -- apply Nat.ltb_lt in El.
+           destruct (Nat.ltb (S (length es')) k) eqn:El2; [reflexivity|].
+           apply Nat.ltb_ge in El2. assert (k = S (length es')) by lia.
+           (* exactly the tail length: excluded by S_use *)
+           simpl length in Hne. apply orb_prop in Hne. destruct Hne as [Hne|Hne].
+           ++ apply Nat.eqb_eq in Hne. lia.
+           ++ apply negb_true_iff in Hne. apply Nat.eqb_neq in Hne. lia.
+        -- apply Nat.ltb_ge in El.
+           replace (Nat.ltb (S (length es')) k) with false by (symmetry; apply Nat.ltb_ge; lia).
+           rewrite split_chain_new_list by (cbn [length]; lia).
+           rewrite all_some_var by assumption. rewrite pvars_var by assumption.
+           rewrite collect_var by assumption.
+           replace (S (length es') - k)%nat with (S (length es' - k)) by lia.
+           simpl skipn. simpl firstn.
+           unfold res.
+           destruct (smatch' d' (new_list (skipn (length es' - k) es'))); [|reflexivity].
+           cbn [opt_app option_map]. rewrite flat_app, flat_var_many.
+           simpl map. simpl flat. rewrite <- !app_assoc. reflexivity.
+    + (* a plain element *)
+      destruct (pat_ok_plain _ _ _ Es Hp) as [Hea Hd].
+      rewrite smatch_plain by exact Es.
+      assert (Hu2 : match es with
+                    | e1 :: es' =>
+                        (match a with
+                         | CPair _ _ => (is_list e1 || negb (is_pair e1)) && use_ok ell a (elems e1)
+                         | _ => true
+                         end) && use_ok ell d es'
+                    | [] => true
+                    end = true).
+      { cbn [use_ok] in Hu. destruct d; auto. simpl in Es. unfold s_is_ell in *. rewrite Es in Hu. exact Hu. }
+      cbn [elems].
+      destruct es as [|e1 es'].
+      * cbn [pm_loop]. unfold pm_end. cbn [tl].
+        rewrite peek_not_ell; [reflexivity | exact Es | exists seen; exact Hd].
+      * apply andb_prop in Hu2. destruct Hu2 as [Hua Hud].
+        rewrite (loop_step rec e1 es' (a :: elems d) cur false env a (elems d)); [|reflexivity|exact Hea|].
+        2:{ intros Hpa. destruct a; simpl in Hpa; try discriminate.
+            apply andb_prop in Hua. destruct Hua as [Hl Hua].
+            apply Hrec; auto. }
+        rewrite peek_not_ell; [| exact Es | exists seen; exact Hd].
+        change (new_list (e1 :: es')) with (CPair e1 (new_list es')). cbv iota.
+        destruct (smatch' a e1) as [se|]; [|reflexivity].
+        rewrite (IHp d) with (seen := seen); auto; [|simpl; lia].
+        unfold res. destruct (smatch' d (new_list es')); [|reflexivity].
+        cbn [opt_app option_map]. rewrite flat_app, app_assoc. reflexivity.
+Qed.
+
+(* ---- pattern_match itself: [S n] fuel for a pattern nested [n] deep *)
+Lemma pm_guard_ok : forall p e, (is_pair p || is_nil p) = true -> last_cdr p = CNil ->
+  is_list e = true \/ is_nil e = true -> pm_guard p e = false.
+Proof.
+  intros p e Hp Hl He. unfold pm_guard.
+  assert (Hpl : is_pair p = true -> is_list p = true).
+  { intros X. unfold is_list. rewrite X, Hl. reflexivity. }
+  destruct He as [He|He].
+  - assert (is_pair e = true) as Hpe by (unfold is_list in He; apply andb_prop in He; tauto).
+    rewrite Hpe, He. simpl. rewrite Hp. simpl.
+    destruct (is_pair p) eqn:Ep; simpl; auto. rewrite Hpl; auto.
+  - destruct e; simpl in He; try discriminate. rewrite Hp. reflexivity.
+Qed.
+
+Lemma smatch_list_atom : forall p seen f, pat_ok lits ell seen p = true ->
+  is_pair f = false -> is_nil f = false -> smatch' p f = None.
+Proof.
+  intros p seen f Hp Hf Hn.
+  destruct p as [| | | |a d| | | | | | | |]; try (simpl in Hp; discriminate).
+  - cbn [smatch]. destruct f; simpl in *; try discriminate; reflexivity.
+  - destruct (starts_with_ell ell d) eqn:Es.
+    + destruct d as [| | | |e d'| | | | | | | |]; simpl in Es; try discriminate.
+      rewrite smatch_ell by exact Es. cbv zeta.
+      assert (chain_len f = 0%nat) as -> by (destruct f; simpl in *; try discriminate; reflexivity).
+      destruct (pat_ok_ell _ _ _ _ Es Hp) as (_ & _ & Hd').
+      destruct d' as [| | | |y d''| | | | | | | |]; try (simpl in Hd'; discriminate).
+      * cbn [chain_len Nat.ltb Nat.leb Nat.sub split_chain map all_some opt_app smatch].
+        destruct f; simpl in *; try discriminate; reflexivity.
+      * reflexivity.
+    + rewrite smatch_plain by exact Es. destruct f; simpl in *; try discriminate; reflexivity.
+Qed.
+
+Theorem pattern_match_spec : forall n p seen, pat_ok lits ell seen p = true -> (car_depth p <= n)%nat ->
+  forall e env, (is_list e || negb (is_pair e)) = true -> use_ok ell p (elems e) = true ->
+  pattern_match lits ell (S n) p e env = res env (smatch' p e).
+Proof.
+  induction n as [n IHn] using lt_wf_ind. intros p seen Hp Hn e env He Hu.
+  cbn [pattern_match].
+  assert (Hpp : (is_pair p || is_nil p) = true).
+  { destruct p; simpl in Hp; try discriminate; reflexivity. }
+  pose proof (pat_ok_proper _ _ Hp) as Hlast.
+  destruct (is_list e || is_nil e) eqn:Hle.
+  - (* a proper list (or the empty list) *)
+    rewrite pm_guard_ok; auto.
+    2:{ apply orb_prop in Hle. tauto. }
+    assert (He2 : new_list (elems e) = e).
+    { apply new_list_elems. apply orb_prop in Hle. destruct Hle as [H|H].
+      - apply is_list_last; exact H.
+      - destruct e; simpl in H; try discriminate; reflexivity. }
+    rewrite <- He2 at 2.
+    apply loop_A with (n := n) (seen := seen); auto.
+    (* the recursive calls have one unit of fuel less and patterns one level shallower *)
+    intros q e' env' Hq Hdq Hpq Hle' Huq.
+    destruct n as [|n']; [lia|].
+    apply (IHn n') with (seen := false); auto; lia.
+  - (* not a list at all *)
+    apply orb_false_iff in Hle. destruct Hle as [Hl Hnil].
+    assert (Hpe : is_pair e = false).
+    { destruct (is_pair e) eqn:X; auto. rewrite Hl in He. simpl in He. discriminate. }
+    assert (pm_guard p e = true) as ->.
+    { unfold pm_guard. rewrite Hpp, Hpe, Hnil. reflexivity. }
+    rewrite (smatch_list_atom p seen e); auto.
+Qed.
 End MatchProofs.
